@@ -1,13 +1,15 @@
 //! C07: joiners.  Directed + randomised scenarios around joining: Welcome with tree in the extension or out of
-//! band, several joiners, external commit (with and without removal of the old self), key package consumed on
-//! first write, mismatched Welcome / tree / key package, re-joining after removal with the same storage.
+//! band, several joiners, external commit (tree in the GroupInfo or out of band, with removal of the old self, with an
+//! external PSK), key package consumed on first write, the mismatch matrix Welcome / tree / key package, re-joining after
+//! removal with the same storage.  Every joiner exchanges messages with the old members and commits right after joining.
 use crate::c15::{new_client, Mk};
 use crate::util::{Opts, Rng};
 use crate::world::*;
 use mls_rs::client_builder::MlsConfig;
-use mls_rs::group::{CommitEffect, ReceivedMessage};
+use mls_rs::group::{CommitEffect, ExportedTree, ReceivedMessage};
 use mls_rs::{Group, MlsMessage};
 use std::collections::BTreeSet;
+use std::panic::{catch_unwind, AssertUnwindSafe};
 
 struct Out {
     fails: Vec<String>,
@@ -53,32 +55,210 @@ fn process_all<C: MlsConfig>(w: &mut World<C>, m: &MlsMessage, skip: usize) -> R
     Ok(())
 }
 
+/// every member must refuse `m` and keep its state (context, tree, authenticator)
+fn reject_all<C: MlsConfig>(w: &mut World<C>, m: &MlsMessage, skip: usize, what: &str, out: &mut Out) {
+    for i in 0..w.members.len() {
+        if i == skip || w.members[i].group.is_none() {
+            continue;
+        }
+        let before = w.group(i).clone();
+        let mm = m.clone();
+        let (r, _) = w.with_group(i, |g| g.process_incoming_message(mm));
+        let name = w.members[i].setup.name.clone();
+        match r {
+            Res::Ok => out.fails.push(format!("member {name} accepted {what}")),
+            Res::Panic(p) => out.fails.push(format!("member {name} panics on {what}: {p}")),
+            Res::Err(e) => {
+                out.cover.insert(format!("{what}:rejected:{e}"));
+                if let Err(x) = same_state(w.group(i), &before) {
+                    out.fails.push(format!("member {name} rejected {what} but its state changed: {x}"));
+                }
+            }
+        }
+    }
+}
+
+/// `who` builds an empty commit, applies it, everybody else must accept it and then agree with `who`
+fn commit_round<C: MlsConfig>(w: &mut World<C>, who: usize, what: &str, out: &mut Out) -> bool {
+    let (r, o) = w.with_group(who, |g| g.commit(vec![]));
+    let Some(o) = o else {
+        out.fails.push(format!("{what}: cannot commit: {}", r.s()));
+        return false;
+    };
+    let (r, _) = w.with_group(who, |g| g.apply_pending_commit());
+    if !r.ok() {
+        out.fails.push(format!("{what}: cannot apply its own commit: {}", r.s()));
+        return false;
+    }
+    if let Err(x) = process_all(w, &o.commit_message, who) {
+        out.fails.push(format!("{what}: {x}"));
+        return false;
+    }
+    for i in 0..w.members.len() {
+        if i != who && w.members[i].group.is_some() {
+            if let Err(x) = same_state(w.group(i), w.group(who)) {
+                out.fails.push(format!("{what}: member {} after the commit: {x}", w.members[i].setup.name));
+                return false;
+            }
+        }
+    }
+    true
+}
+
+fn kp_ids<C: MlsConfig>(w: &World<C>, j: usize) -> BTreeSet<Vec<u8>> {
+    w.members[j].h.kp.inner.key_packages().into_iter().map(|(id, _)| id).collect()
+}
+
+/// every Welcome of `wms` with `tree` must be refused by member `j`, whose key packages all stay
+fn expect_join_err<C: MlsConfig>(w: &World<C>, j: usize, tree: Option<&Vec<u8>>, wms: &[MlsMessage], what: &str, out: &mut Out) {
+    out.cases += 1;
+    let before = kp_ids(w, j);
+    for wm in wms {
+        let t = tree.map(|t| tree_of(t));
+        match catch_unwind(AssertUnwindSafe(|| w.members[j].client.join_group(t, wm, None))) {
+            Err(_) => out.fails.push(format!("mismatch {what}: join_group panics")),
+            Ok(Ok(_)) => out.fails.push(format!("mismatch {what}: {} joined", w.members[j].setup.name)),
+            Ok(Err(e)) => {
+                out.cover.insert(format!("mismatch:{what}:{}", err_class(&e)));
+            }
+        }
+    }
+    if kp_ids(w, j) != before {
+        out.fails.push(format!("mismatch {what}: a refused join changed the key-package store of {}", w.members[j].setup.name));
+    }
+}
+
+/// the exported tree with one bit changed inside one occupied node (still decodable, re-encoded)
+fn mutate_tree(rng: &mut Rng, tree: &[u8]) -> Option<Vec<u8>> {
+    use mls_rs::mls_rs_codec::MlsEncode;
+    let t = ExportedTree::from_bytes(tree).ok()?;
+    let mut lens = vec![];
+    for n in t.nodes() {
+        lens.push(n.mls_encode_to_vec().ok()?.len());
+    }
+    let total: usize = lens.iter().sum();
+    if total > tree.len() {
+        return None;
+    }
+    let header = tree.len() - total;
+    let occupied: Vec<usize> = (0..lens.len()).filter(|&i| t.nodes()[i].is_some() && lens[i] > 1).collect();
+    if occupied.is_empty() {
+        return None;
+    }
+    for _ in 0..40 {
+        let k = *rng.pick(&occupied);
+        let start = header + lens[..k].iter().sum::<usize>();
+        let off = 1 + rng.below(lens[k] as u64 - 1) as usize; // not the presence byte
+        let mut b = tree.to_vec();
+        b[start + off] ^= 1 << rng.below(8);
+        if let Ok(Ok(t2)) = catch_unwind(|| ExportedTree::from_bytes(&b)) {
+            if let Ok(re) = t2.to_bytes() {
+                if re != tree {
+                    return Some(re);
+                }
+            }
+        }
+    }
+    None
+}
+
+/// a new client `name` whose credential carries `ident`
+fn fresh<C: MlsConfig>(w: &mut World<C>, mk: Mk<C>, rng: &mut Rng, name: &str, ident: &str, tree_ext: bool) -> usize {
+    let idx = new_client(w, mk, name, rng.chance(1, 4), 3);
+    // rebuild with the chosen tree-extension option
+    let mut s = w.members[idx].setup.clone();
+    s.tree_ext = tree_ext;
+    s.single_welcome = rng.chance(1, 2);
+    let (id, sk) = make_identity(ident, s.suite);
+    let h = w.members[idx].h.clone();
+    w.members[idx].client = mk(&s, &h, id, sk);
+    w.members[idx].setup = s;
+    w.members[idx].identity = ident.as_bytes().to_vec();
+    idx
+}
+
+/// The external joiner `e` holds `g` built together with the commit `cm`: every member accepts `cm`, `e` holds the state of the
+/// old member `a`, can talk to it and commits at once.
+fn after_external<C: MlsConfig>(w: &mut World<C>, e: usize, g: Group<C>, cm: &MlsMessage, a: usize, what: &str, out: &mut Out) -> bool {
+    w.members[e].group = Some(g);
+    if let Err(x) = process_all(w, cm, e) {
+        out.fails.push(format!("{what}: {x}"));
+        w.members[e].group = None;
+        return false;
+    }
+    if let Err(x) = same_state(w.group(e), w.group(a)) {
+        out.fails.push(format!("{what}: joiner against an old member: {x}"));
+        return false;
+    }
+    if !talk(w, a, &[e], what, out) {
+        return false;
+    }
+    commit_round(w, e, &format!("{what}: commit of the external joiner"), out)
+}
+
+/// `old` sends an application message that every one of `new` must read, and each of `new` answers
+fn talk<C: MlsConfig>(w: &mut World<C>, old: usize, new: &[usize], what: &str, out: &mut Out) -> bool {
+    let (r, m) = w.with_group(old, |g| g.encrypt_application_message(b"to the newcomers", vec![]));
+    let Some(m) = m else {
+        out.fails.push(format!("{what}: an old member cannot send: {}", r.s()));
+        return false;
+    };
+    for &j in new {
+        let mm = m.clone();
+        let (r, got) = w.with_group(j, |g| g.process_incoming_message(mm));
+        match got {
+            Some(ReceivedMessage::ApplicationMessage(d)) if d.data() == b"to the newcomers" => {}
+            _ => {
+                out.fails.push(format!("{what}: fresh joiner {} cannot read the message of an old member: {}", w.members[j].setup.name, r.s()));
+                return false;
+            }
+        }
+        let (r, m2) = w.with_group(j, |g| g.encrypt_application_message(b"hi", vec![]));
+        let Some(m2) = m2 else {
+            out.fails.push(format!("{what}: fresh joiner {} cannot send: {}", w.members[j].setup.name, r.s()));
+            return false;
+        };
+        let (r2, got) = w.with_group(old, |g| g.process_incoming_message(m2));
+        if !matches!(got, Some(ReceivedMessage::ApplicationMessage(_))) {
+            out.fails.push(format!("{what}: message of fresh joiner {} refused: {}", w.members[j].setup.name, r2.s()));
+            return false;
+        }
+    }
+    true
+}
+
 fn scenario<C: MlsConfig>(rng: &mut Rng, mk: Mk<C>, out: &mut Out) {
     let mut w: World<C> = new_world(Default::default(), "/tmp/vharness-scratch-c07");
     let tree_ext = rng.chance(1, 2);
     let n0 = rng.range(1, 5) as usize;
     for i in 0..n0 + 3 {
-        let idx = new_client(&mut w, mk, &format!("m{i}"), rng.chance(1, 4), 3);
-        // rebuild with the chosen tree-extension option
-        let mut s = w.members[idx].setup.clone();
-        s.tree_ext = tree_ext;
-        s.single_welcome = rng.chance(1, 2);
-        let (id, sk) = make_identity(&s.name, s.suite);
-        let h = w.members[idx].h.clone();
-        w.members[idx].client = mk(&s, &h, id, sk);
-        w.members[idx].setup = s;
+        fresh(&mut w, mk, rng, &format!("m{i}"), &format!("m{i}"), tree_ext);
     }
     let g = w.members[0].client.create_group(Default::default(), Default::default(), None).unwrap();
     w.members[0].group = Some(g);
     out.cover.insert(format!("tree_ext={}", tree_ext as u8));
+    // the stranger owns a key package of its own, which no Welcome of this scenario addresses
+    let stranger = n0 + 2;
+    w.members[stranger].client.generate_key_package_message(Default::default(), Default::default(), None).unwrap();
     // grow to n0 members, one commit per joiner or several at once
     let mut next = 1usize;
     while next < n0 {
         let batch = rng.range(1, 2).min((n0 - next) as u64) as usize;
         let joiners: Vec<usize> = (next..next + batch).collect();
         next += batch;
+        // some joiners hold an older key package next to the one that is going to be added
+        let mut decoys: Vec<Option<BTreeSet<Vec<u8>>>> = vec![];
+        for &j in &joiners {
+            if rng.chance(1, 2) {
+                w.members[j].client.generate_key_package_message(Default::default(), Default::default(), None).unwrap();
+                decoys.push(Some(kp_ids(&w, j)));
+            } else {
+                decoys.push(None);
+            }
+        }
         let kps: Vec<MlsMessage> = joiners.iter().map(|&j| w.members[j].client.generate_key_package_message(Default::default(), Default::default(), None).unwrap()).collect();
         let committer = *rng.pick(&(0..joiners[0]).filter(|&i| w.members[i].group.is_some()).collect::<Vec<_>>());
+        let tree_prev = w.group(committer).export_tree().to_bytes().unwrap();
         let (r, o) = w.with_group(committer, |g| {
             let mut b = g.commit_builder();
             for kp in kps {
@@ -96,7 +276,45 @@ fn scenario<C: MlsConfig>(rng: &mut Rng, mk: Mk<C>, out: &mut Out) {
             return;
         }
         let tree = w.group(committer).export_tree().to_bytes().unwrap();
-        for &j in &joiners {
+        // a tree of the epoch after this one (one of its possible successors), made on a copy of the committer
+        let tree_next = {
+            let mut gc = w.group(committer).clone();
+            match catch_unwind(AssertUnwindSafe(|| gc.commit(vec![]).and_then(|_| gc.apply_pending_commit()))) {
+                Ok(Ok(_)) => Some(gc.export_tree().to_bytes().unwrap()),
+                _ => None,
+            }
+        };
+        for (jn, &j) in joiners.iter().enumerate() {
+            // ---- the mismatch matrix: each combination is refused and leaves the key package in place --------------------
+            if !tree_ext {
+                expect_join_err(&w, j, Some(&tree_prev), &o.welcome_messages, "tree-of-previous-epoch", out);
+                match &tree_next {
+                    Some(t) if *t != tree => expect_join_err(&w, j, Some(t), &o.welcome_messages, "tree-of-next-epoch", out),
+                    _ => out.fails.push("setup: no tree of the next epoch".into()),
+                }
+                expect_join_err(&w, j, None, &o.welcome_messages, "no-tree", out);
+                match mutate_tree(rng, &tree) {
+                    Some(t) => expect_join_err(&w, j, Some(&t), &o.welcome_messages, "tree-one-node-changed", out),
+                    None => {
+                        out.cover.insert("mismatch:tree-one-node-changed:skipped".into());
+                    }
+                }
+            } else if jn == 0 {
+                // the tree in the extension wins over whatever comes out of band: a wrong out-of-band tree then changes nothing
+                out.cases += 1;
+                let mut ok = false;
+                for wm in &o.welcome_messages {
+                    if let Ok(Ok((g, _))) = catch_unwind(AssertUnwindSafe(|| w.members[j].client.join_group(Some(tree_of(&tree_prev)), wm, None))) {
+                        ok = true;
+                        if let Err(e) = same_state(&g, w.group(committer)) {
+                            out.fails.push(format!("joiner m{j}, tree in the extension and an older tree out of band: {e}"));
+                        }
+                        break;
+                    }
+                }
+                out.cover.insert(format!("ext-tree-wins-over-oob-tree={}", ok as u8));
+            }
+            // ---- the genuine join -----------------------------------------------------------------------------------------
             out.cases += 1;
             let mut joined = false;
             let mut errs = vec![];
@@ -112,7 +330,7 @@ fn scenario<C: MlsConfig>(rng: &mut Rng, mk: Mk<C>, out: &mut Out) {
                 }
             }
             if !joined {
-                out.fails.push(format!("joiner m{j} cannot join: {errs:?}"));
+                out.fails.push(format!("joiner m{j} cannot join (after the refused mismatched attempts): {errs:?}"));
                 return;
             }
             if let Err(e) = same_state(w.group(j), w.group(committer)) {
@@ -139,140 +357,285 @@ fn scenario<C: MlsConfig>(rng: &mut Rng, mk: Mk<C>, out: &mut Out) {
             if !r.ok() || after + 1 != before {
                 out.fails.push(format!("key package of joiner m{j} not deleted by the first write ({before} -> {after}, write {})", r.s()));
             }
+            // of two key packages exactly the addressed (second) one is gone
+            if let Some(keep) = &decoys[jn] {
+                out.cases += 1;
+                if kp_ids(&w, j) != *keep {
+                    out.fails.push(format!("joiner m{j} held two key packages: the first write did not delete exactly the one the Welcome addressed"));
+                }
+                out.cover.insert("two-key-packages".into());
+            }
             w.members[j].wrote = true;
             let again = o.welcome_messages.iter().any(|wm| w.members[j].client.join_group(if tree_ext { None } else { Some(tree_of(&tree)) }, wm, None).is_ok());
             if again {
                 out.fails.push(format!("joiner m{j} could use its Welcome again after the key package was deleted"));
             }
-            // without the out-of-band tree the joiner must be refused when the extension is off
-            if !tree_ext {
-                out.cases += 1;
-            }
-            // the joiner can immediately send and commit
-            let (r, m) = w.with_group(j, |g| g.encrypt_application_message(b"hi", vec![]));
-            if let Some(m) = m {
-                let (r2, _) = w.with_group(committer, |g| g.process_incoming_message(m));
-                if !r2.ok() {
-                    out.fails.push(format!("message of fresh joiner m{j} refused: {}", r2.s()));
-                }
-            } else {
-                out.fails.push(format!("fresh joiner m{j} cannot send: {}", r.s()));
+        }
+        // a Welcome for another key package never produces a group, whether the receiver holds a key package of its own or
+        // not, and its store stays as it is
+        expect_join_err(&w, stranger, if tree_ext { None } else { Some(&tree) }, &o.welcome_messages, "stranger-with-own-key-package", out);
+        expect_join_err(&w, n0 + 1, if tree_ext { None } else { Some(&tree) }, &o.welcome_messages, "stranger-without-key-package", out);
+        // the joiners hear from an old member (message, commit), then every joiner commits
+        if !talk(&mut w, committer, &joiners, "after Welcome", out) {
+            return;
+        }
+        let old = *rng.pick(&(0..joiners[0]).filter(|&i| w.members[i].group.is_some()).collect::<Vec<_>>());
+        if !commit_round(&mut w, old, "commit of an old member right after the joiners joined", out) {
+            return;
+        }
+        for &j in &joiners {
+            if !commit_round(&mut w, j, &format!("commit of the fresh Welcome joiner m{j}"), out) {
+                return;
             }
         }
-        // a Welcome for another key package, or with another tree, never produces a group
-        let stranger = n0 + 2;
-        for wm in &o.welcome_messages {
-            out.cases += 1;
-            if w.members[stranger].client.join_group(if tree_ext { None } else { Some(tree_of(&tree)) }, wm, None).is_ok() {
-                out.fails.push("a client joined through a Welcome addressed to another key package".into());
-            }
-        }
+        out.cover.insert("welcome-joiner-receives-and-commits".into());
     }
     let members: Vec<usize> = (0..n0).filter(|&i| w.members[i].group.is_some()).collect();
     let Some(&a) = members.first() else { return };
-    // ---- external commit by an outsider -------------------------------------------------------------------------
+    // ---- external commit by an outsider, tree in the GroupInfo ----------------------------------------------------------
     {
         let e = n0; // outsider
         let gi = w.group(a).group_info_message_allowing_ext_commit(true).unwrap();
         out.cases += 1;
-        match std::panic::catch_unwind(std::panic::AssertUnwindSafe(|| w.members[e].client.commit_external(gi))) {
+        match catch_unwind(AssertUnwindSafe(|| w.members[e].client.commit_external(gi))) {
             Ok(Ok((g, cm))) => {
-                w.members[e].group = Some(g);
-                match process_all(&mut w, &cm, e) {
-                    Ok(()) => {
-                        if let Err(x) = same_state(w.group(e), w.group(a)) {
-                            out.fails.push(format!("external joiner: {x}"));
-                        }
-                        let (_, m) = w.with_group(e, |g| g.commit(vec![]));
-                        if let Some(o) = m {
-                            w.with_group(e, |g| g.apply_pending_commit());
-                            if let Err(x) = process_all(&mut w, &o.commit_message, e) {
-                                out.fails.push(format!("commit of the external joiner: {x}"));
-                            }
-                        } else {
-                            out.fails.push("external joiner cannot commit".into());
-                        }
-                    }
-                    Err(x) => out.fails.push(format!("external commit: {x}")),
+                if !after_external(&mut w, e, g, &cm, a, "external commit", out) {
+                    return;
                 }
                 out.cover.insert("external-commit".into());
             }
             Ok(Err(e2)) => out.fails.push(format!("commit_external fails: {}", err_class(&e2))),
             Err(_) => out.fails.push("commit_external panics".into()),
         }
-        // a stale GroupInfo (of the previous epoch) never produces a group the members accept
-        let stale = w.group(a).group_info_message_allowing_ext_commit(true).unwrap();
-        let (_, o) = w.with_group(a, |g| g.commit(vec![]));
-        if let Some(o) = o {
-            w.with_group(a, |g| g.apply_pending_commit());
-            let _ = process_all(&mut w, &o.commit_message, a);
-            out.cases += 1;
-            let late = n0 + 1;
-            if let Ok(Ok((_, cm))) = std::panic::catch_unwind(std::panic::AssertUnwindSafe(|| w.members[late].client.commit_external(stale))) {
-                let mm = cm.clone();
-                let (r, _) = w.with_group(a, |g| g.process_incoming_message(mm));
-                if r.ok() {
-                    out.fails.push("members accepted an external commit built from a stale GroupInfo".into());
+    }
+    // ---- external commit, tree delivered out of band ----------------------------------------------------------------------
+    if rng.chance(2, 3) {
+        let e = fresh(&mut w, mk, rng, "x-oob", "x-oob", tree_ext);
+        let gi = w.group(a).group_info_message_allowing_ext_commit(false).unwrap();
+        let tree = w.group(a).export_tree().to_bytes().unwrap();
+        // no tree, the tree of an older epoch (the one-member group the scenario started with is never current here), a changed tree
+        out.cases += 1;
+        let mut wrong: Vec<(&str, Option<Vec<u8>>)> = vec![("no-tree", None)];
+        if let Some(t) = mutate_tree(rng, &tree) {
+            wrong.push(("tree-one-node-changed", Some(t)));
+        }
+        for (what, t) in wrong {
+            let r = catch_unwind(AssertUnwindSafe(|| {
+                let b = w.members[e].client.external_commit_builder()?;
+                match &t {
+                    Some(t) => b.with_tree_data(tree_of(t)).build(gi.clone()),
+                    None => b.build(gi.clone()),
+                }
+            }));
+            match r {
+                Err(_) => out.fails.push(format!("external commit builder panics ({what})")),
+                Ok(Ok(_)) => out.fails.push(format!("an external commit was built from a GroupInfo without tree and {what}")),
+                Ok(Err(x)) => {
+                    out.cover.insert(format!("external-commit-oob:{what}:{}", err_class(&x)));
                 }
             }
-            out.cover.insert("stale-groupinfo".into());
+        }
+        out.cases += 1;
+        match catch_unwind(AssertUnwindSafe(|| w.members[e].client.external_commit_builder().and_then(|b| b.with_tree_data(tree_of(&tree)).build(gi.clone())))) {
+            Ok(Ok((g, cm))) => {
+                if !after_external(&mut w, e, g, &cm, a, "external commit with the tree out of band", out) {
+                    return;
+                }
+                out.cover.insert("external-commit-oob-tree".into());
+            }
+            Ok(Err(x)) => out.fails.push(format!("external commit with the tree out of band fails: {}", err_class(&x))),
+            Err(_) => out.fails.push("external commit with the tree out of band panics".into()),
+        }
+    }
+    // ---- external commit with an external PSK ---------------------------------------------------------------------------------
+    if rng.chance(2, 3) {
+        let pid = rng.bytes(8);
+        let val = rng.bytes(32);
+        w.psks.insert(pid.clone(), val.clone());
+        for m in &w.members {
+            m.h.psk.inner.lock().unwrap().insert(ext_psk_id(&pid), psk_value(&val));
+        }
+        // a joiner that holds another value under this id: nobody follows it
+        {
+            let bad = fresh(&mut w, mk, rng, "x-psk-bad", "x-psk-bad", tree_ext);
+            w.members[bad].h.psk.inner.lock().unwrap().insert(ext_psk_id(&pid), psk_value(&rng.bytes(32)));
+            let gi = w.group(a).group_info_message_allowing_ext_commit(true).unwrap();
+            out.cases += 1;
+            match catch_unwind(AssertUnwindSafe(|| w.members[bad].client.external_commit_builder().and_then(|b| b.with_external_psk(ext_psk_id(&pid)).build(gi)))) {
+                Ok(Ok((_, cm))) => reject_all(&mut w, &cm, bad, "external-commit-with-wrong-psk-value", out),
+                Ok(Err(x)) => out.fails.push(format!("external commit with an external PSK fails: {}", err_class(&x))),
+                Err(_) => out.fails.push("external commit with an external PSK panics".into()),
+            }
+        }
+        let e = fresh(&mut w, mk, rng, "x-psk", "x-psk", tree_ext);
+        let gi = w.group(a).group_info_message_allowing_ext_commit(true).unwrap();
+        out.cases += 1;
+        match catch_unwind(AssertUnwindSafe(|| w.members[e].client.external_commit_builder().and_then(|b| b.with_external_psk(ext_psk_id(&pid)).build(gi)))) {
+            Ok(Ok((g, cm))) => {
+                if !after_external(&mut w, e, g, &cm, a, "external commit with an external PSK", out) {
+                    return;
+                }
+                out.cover.insert("external-commit-psk".into());
+            }
+            Ok(Err(x)) => out.fails.push(format!("external commit with an external PSK fails: {}", err_class(&x))),
+            Err(_) => out.fails.push("external commit with an external PSK panics".into()),
+        }
+    }
+    // ---- a member that lost its state re-joins by an external commit that removes its previous leaf -----------------------
+    if members.len() >= 2 && rng.chance(2, 3) {
+        let x = *rng.pick(&members[1..]);
+        let xl = w.group(x).current_member_index();
+        let ident = String::from_utf8_lossy(&w.members[x].identity).to_string();
+        let size = w.group(a).roster().members().len();
+        let oob = rng.chance(1, 2);
+        let e = fresh(&mut w, mk, rng, &format!("{ident}-again"), &ident, tree_ext);
+        let gi = w.group(a).group_info_message_allowing_ext_commit(!oob).unwrap();
+        let tree = w.group(a).export_tree().to_bytes().unwrap();
+        // without the removal the identity would be in the group twice: nobody follows
+        {
+            out.cases += 1;
+            let gi2 = gi.clone();
+            let r = catch_unwind(AssertUnwindSafe(|| {
+                let b = w.members[e].client.external_commit_builder()?;
+                let b = if oob { b.with_tree_data(tree_of(&tree)) } else { b };
+                b.build(gi2)
+            }));
+            match r {
+                Err(_) => out.fails.push("external commit of a present identity panics".into()),
+                Ok(Ok((_, cm))) => reject_all(&mut w, &cm, e, "external-commit-of-a-present-identity-without-removal", out),
+                Ok(Err(x)) => {
+                    out.cover.insert(format!("external-commit-duplicate-identity:refused-by-builder:{}", err_class(&x)));
+                }
+            }
+        }
+        out.cases += 1;
+        let r = catch_unwind(AssertUnwindSafe(|| {
+            let b = w.members[e].client.external_commit_builder()?.with_removal(xl);
+            let b = if oob { b.with_tree_data(tree_of(&tree)) } else { b };
+            b.build(gi)
+        }));
+        match r {
+            Ok(Ok((g, cm))) => {
+                if !after_external(&mut w, e, g, &cm, a, "external commit removing the joiner's previous leaf", out) {
+                    return;
+                }
+                if w.members[x].group.is_some() {
+                    out.fails.push("the previous self of an external joiner still considers itself a member".into());
+                    w.members[x].group = None;
+                }
+                let now = w.group(a).roster().members().len();
+                let twice = w.group(a).roster().members().iter().filter(|m| m.signing_identity.credential.as_basic().map(|b| b.identifier.clone()) == Some(ident.as_bytes().to_vec())).count();
+                if now != size || twice != 1 {
+                    out.fails.push(format!("external commit with removal: {size} -> {now} members, identity {ident} present {twice} times"));
+                }
+                out.cover.insert(format!("external-commit-removal:oob={}", oob as u8));
+            }
+            Ok(Err(x)) => out.fails.push(format!("external commit with removal of the previous leaf fails: {}", err_class(&x))),
+            Err(_) => out.fails.push("external commit with removal of the previous leaf panics".into()),
+        }
+    }
+    let members: Vec<usize> = (0..n0).filter(|&i| w.members[i].group.is_some()).collect();
+    // ---- a stale GroupInfo (of the previous epoch) never produces a group the members accept ------------------------------------
+    {
+        let stale = w.group(a).group_info_message_allowing_ext_commit(true).unwrap();
+        if !commit_round(&mut w, a, "commit that makes the GroupInfo stale", out) {
+            return;
+        }
+        out.cases += 1;
+        let late = n0 + 1;
+        match catch_unwind(AssertUnwindSafe(|| w.members[late].client.commit_external(stale))) {
+            Ok(Ok((_, cm))) => reject_all(&mut w, &cm, late, "external-commit-from-stale-groupinfo", out),
+            Ok(Err(x)) => {
+                // the outsider cannot know; a refusal is a refusal all the same
+                out.cover.insert(format!("stale-groupinfo:refused-by-builder:{}", err_class(&x)));
+            }
+            Err(_) => out.fails.push("commit_external panics on a stale GroupInfo".into()),
+        }
+        out.cover.insert("stale-groupinfo".into());
+        // the group goes on
+        if !commit_round(&mut w, a, "commit after the refused stale external commit", out) {
+            return;
         }
     }
     // ---- remove a member that has persisted the group, add it again (same client, same storage) -----------------------
     if members.len() >= 2 {
         let x = members[members.len() - 1];
         // x lives through one more epoch and persists it, so that its storage holds a prior-epoch record
-        let (_, o0) = w.with_group(a, |g| g.commit(vec![]));
-        if let Some(o0) = o0 {
-            w.with_group(a, |g| g.apply_pending_commit());
-            let _ = process_all(&mut w, &o0.commit_message, a);
-            w.with_group(x, |g| g.write_to_storage());
+        if !commit_round(&mut w, a, "commit before the removal", out) {
+            return;
+        }
+        let (r, _) = w.with_group(x, |g| g.write_to_storage());
+        if !r.ok() {
+            out.fails.push(format!("member cannot persist: {}", r.s()));
         }
         let xl = w.group(x).current_member_index();
-        let (_, o) = w.with_group(a, |g| g.commit_builder().remove_member(xl)?.build());
-        if let Some(o) = o {
-            w.with_group(a, |g| g.apply_pending_commit());
-            let _ = process_all(&mut w, &o.commit_message, a);
-            let kp = w.members[x].client.generate_key_package_message(Default::default(), Default::default(), None).unwrap();
-            let (_, o2) = w.with_group(a, |g| g.commit_builder().add_member(kp)?.build());
-            if let Some(o2) = o2 {
-                w.with_group(a, |g| g.apply_pending_commit());
-                let _ = process_all(&mut w, &o2.commit_message, a);
-                let tree = w.group(a).export_tree().to_bytes().unwrap();
-                let mut g2 = None;
-                for wm in &o2.welcome_messages {
-                    if let Ok((g, _)) = w.members[x].client.join_group(if tree_ext { None } else { Some(tree_of(&tree)) }, wm, None) {
-                        g2 = Some(g);
-                        break;
-                    }
+        let (r, o) = w.with_group(a, |g| g.commit_builder().remove_member(xl)?.build());
+        let Some(o) = o else {
+            out.fails.push(format!("cannot remove a member: {}", r.s()));
+            return;
+        };
+        w.with_group(a, |g| g.apply_pending_commit());
+        if let Err(e) = process_all(&mut w, &o.commit_message, a) {
+            out.fails.push(format!("removal: {e}"));
+            return;
+        }
+        if w.members[x].group.is_some() {
+            out.fails.push("a removed member still considers itself a member".into());
+            return;
+        }
+        let kp = w.members[x].client.generate_key_package_message(Default::default(), Default::default(), None).unwrap();
+        let (r, o2) = w.with_group(a, |g| g.commit_builder().add_member(kp)?.build());
+        let Some(o2) = o2 else {
+            out.fails.push(format!("cannot add the removed member again: {}", r.s()));
+            return;
+        };
+        w.with_group(a, |g| g.apply_pending_commit());
+        if let Err(e) = process_all(&mut w, &o2.commit_message, a) {
+            out.fails.push(format!("adding the removed member again: {e}"));
+            return;
+        }
+        let tree = w.group(a).export_tree().to_bytes().unwrap();
+        let mut g2 = None;
+        for wm in &o2.welcome_messages {
+            if let Ok((g, _)) = w.members[x].client.join_group(if tree_ext { None } else { Some(tree_of(&tree)) }, wm, None) {
+                g2 = Some(g);
+                break;
+            }
+        }
+        out.cases += 1;
+        match g2 {
+            None => out.fails.push("a removed member cannot re-join with the same storage".into()),
+            Some(g) => {
+                w.members[x].group = Some(g);
+                if let Err(e) = same_state(w.group(x), w.group(a)) {
+                    out.fails.push(format!("re-joined member: {e}"));
                 }
-                out.cases += 1;
-                match g2 {
-                    None => out.fails.push("a removed member cannot re-join with the same storage".into()),
-                    Some(g) => {
-                        w.members[x].group = Some(g);
-                        if let Err(e) = same_state(w.group(x), w.group(a)) {
-                            out.fails.push(format!("re-joined member: {e}"));
-                        }
-                        // it must be able to follow the group: process the next commit and commit itself
-                        let (_, o3) = w.with_group(a, |g| g.commit(vec![]));
-                        if let Some(o3) = o3 {
-                            w.with_group(a, |g| g.apply_pending_commit());
+                // it must be able to follow the group: process the next commit and commit itself
+                let (_, o3) = w.with_group(a, |g| g.commit(vec![]));
+                if let Some(o3) = o3 {
+                    w.with_group(a, |g| g.apply_pending_commit());
+                    let m = o3.commit_message.clone();
+                    let (r, _) = w.with_group(x, |g| g.process_incoming_message(m));
+                    let followed = r.ok();
+                    if !followed {
+                        out.fails.push(format!("[F14] member re-joined with the storage of its earlier membership cannot process the next commit: {}", r.s()));
+                    }
+                    for i in 0..w.members.len() {
+                        if i != a && i != x && w.members[i].group.is_some() {
                             let m = o3.commit_message.clone();
-                            let (r, _) = w.with_group(x, |g| g.process_incoming_message(m));
+                            let (r, _) = w.with_group(i, |g| g.process_incoming_message(m));
                             if !r.ok() {
-                                out.fails.push(format!("[F14] member re-joined with the storage of its earlier membership cannot process the next commit: {}", r.s()));
-                            }
-                            for i in 0..w.members.len() {
-                                if i != a && i != x && w.members[i].group.is_some() {
-                                    let m = o3.commit_message.clone();
-                                    w.with_group(i, |g| g.process_incoming_message(m));
-                                }
+                                out.fails.push(format!("member {} rejects the commit after the re-join: {}", w.members[i].setup.name, r.s()));
                             }
                         }
-                        out.cover.insert("rejoin-same-storage".into());
                     }
+                    if followed {
+                        commit_round(&mut w, x, "commit of the member re-joined with the same storage", out);
+                    }
+                } else {
+                    out.fails.push("cannot commit after the re-join".into());
                 }
+                out.cover.insert("rejoin-same-storage".into());
             }
         }
     }
